@@ -8,7 +8,12 @@
                            in report order; [] when the spec is accepted.
    2. [well_formed]      : property C17's list as a decidable predicate.
    3. [well_formed_weak] : what lox really enforces ([well_formed] minus the
-                           clauses lox does not check, see the end of file).
+                           one clause lox does not check: the shape of parser
+                           rule names, see the end of file).
+
+   The model follows the tree AFTER the fixes c05ffe8 (reversed class range
+   rejected), 938df3a (macro cycles found in the Check pass, used or not) and
+   b7deef5 (empty literal '' as a parser term rejected).
 
    Definitions only (extracted to OCaml and run against the real tool); the
    theorems are in AnalyzeProofs*.v.
@@ -65,7 +70,8 @@ Inductive dkind :=
 | KNotRuleOrToken | KUnknownAlias | KAmbiguousAlias | KUndefinedMode
 | KStartRedefined | KStartUndefined | KEmptyLiteral | KTokenDiscard | KTokenEmit
 | KFragTwoDiscard | KFragTwoEmit | KFragDiscardAndEmit | KMacroCycle
-| KListEntryNotSimple | KListSepNotSimple | KOther.
+| KListEntryNotSimple | KListSepNotSimple | KOther
+| KBadRange.                         (* appended last: constructor indices are stable *)
 
 (* kind, id of the declaration the reported position lies in *)
 Definition diag := (dkind * option nat)%type.
@@ -85,8 +91,9 @@ Definition diag := (dkind * option nat)%type.
    discarded and emitted at the same time" KFragDiscardAndEmit; "macro cycle
    detected" KMacroCycle (position: the macro that closes the cycle);
    "@list entry param must be a simple token or rule" KListEntryNotSimple;
-   "@list separator param must be a simple token or rule" KListSepNotSimple.
-   KOther is never produced by this model. *)
+   "@list separator param must be a simple token or rule" KListSepNotSimple;
+   "invalid character range 'z'-'a': lower bound is above upper bound"
+   KBadRange.  KOther is never produced by this model. *)
 
 Definition decl_id (d : decl) : nat :=
   match d with
@@ -336,89 +343,12 @@ Fixpoint cn_decls (ds : list decl) (st : nstate) {struct ds} : nstate * list dia
 Definition pass_names (s : spec) : nstate * list diag := cn_decls (List.concat s) nstate0.
 
 (* ------------------------------------------------------------------ *)
-(* Pass 2: Check.  Mode.RunPass only iterates its rules here, so the pass is
-   a plain left-to-right traversal of [all_decls].                       *)
+(* Macro expansion (used by Check for cycles and by GenerateGrammar)   *)
 
-(* LexerTermLiteral / LexerTermRef / LexerTermCharClass .RunPass(Check).
-   A class is not checked at all: [z-a] is accepted. *)
-Definition ck_atom (st : nstate) (id : nat) (a : lterm) : list diag :=
-  match a with
-  | LLit [] => [(KEmptyLiteral, Some id)]
-  | LLit _ => []
-  | LRef n =>
-      match lookup n (n_names st) with
-      | None => [(KUndefined, Some id)]
-      | Some (EMacro _ _) => []
-      | Some _ => [(KNotAMacro, Some id)]
-      end
-  | LClass _ => []
-  | LGroup _ => []
-  end.
-
-Definition ck_lexpr (st : nstate) (id : nat) (e : lexpr) : list diag :=
-  flat_map (ck_atom st id) (lexpr_atoms e).
-
-(* action.go *)
-Definition ck_action (st : nstate) (id : nat) (a : laction) : list diag :=
-  match a with
-  | ADiscard | APop => []
-  | APush m => if mem_str m (n_modes st) then [] else [(KUndefinedMode, Some id)]
-  | AEmit t =>
-      match lookup t (n_names st) with
-      | None => [(KUndefined, Some id)]
-      | Some (EToken _) => []
-      | Some _ => [(KNotAToken, Some id)]
-      end
-  end.
-
-Definition pterm_simple (t : pterm) : bool :=
-  match t with PName _ | PAlias _ => true | _ => false end.
-
-(* parser_term.go preCheck, children, postCheck.  An EMPTY literal is neither
-   looked up nor rejected (case t.Alias != "" is false): accepted.  An
-   external name is "not a parser or token rule". *)
-Fixpoint ck_pterm (st : nstate) (id : nat) (t : pterm) : list diag :=
-  match t with
-  | PName n =>
-      match lookup n (n_names st) with
-      | None => [(KUndefined, Some id)]
-      | Some (ERule _) | Some (EToken _) => []
-      | Some _ => [(KNotRuleOrToken, Some id)]
-      end
-  | PAlias lit =>
-      if String.eqb lit ""%string then []
-      else match count_str lit (n_aliases st) with
-           | 0 => [(KUnknownAlias, Some id)]
-           | 1 => []
-           | _ => [(KAmbiguousAlias, Some id)]
-           end
-  | PError => []
-  | PCard _ c => ck_pterm st id c
-  | PList e sp _ =>
-      ck_pterm st id e ++ ck_pterm st id sp ++
-      (if negb (pterm_simple e) then [(KListEntryNotSimple, Some id)]
-       else if negb (pterm_simple sp) then [(KListSepNotSimple, Some id)]
-       else [])
-  end.
-
-Definition ck_decl (st : nstate) (d : decl) : list diag :=
-  match d with
-  | DToken id _ e acts | DFrag id e acts => ck_lexpr st id e ++ flat_map (ck_action st id) acts
-  | DMacro id _ e => ck_lexpr st id e
-  | DExternal _ _ => []
-  | DMode _ _ _ => []                      (* body: see all_decls *)
-  | DRule id _ _ prods => flat_map (flat_map (ck_pterm st id)) prods
-  end.
-
-Definition pass_check (st : nstate) (s : spec) : list diag :=
-  flat_map (ck_decl st) (all_decls s).
-
-(* ------------------------------------------------------------------ *)
-(* Pass 4: GenerateGrammar                                             *)
-
-(* MacroRule.NFACons: a macro is expanded every time a token or fragment
-   rule reaches it; [stk] = the macros whose cycleDetect flag is set.  The
-   diagnostic is positioned at the macro that is re-entered, expansion then
+(* MacroRule.NFACons (GenerateGrammar): a macro is expanded every time a token
+   or fragment rule reaches it; [stk] = the macros whose cycleDetect flag is
+   set.  Since 938df3a a cyclic macro no longer gets this far (Check fails
+   first); the code is still there and so is its mirror.  The diagnostic is positioned at the macro that is re-entered, expansion then
    continues with the next term.  Each recursive call pushes a macro that is
    not on the stack, so [fuel] > number of names is never exhausted (the fuel
    branch reports a cycle to stay on the safe side). *)
@@ -442,6 +372,140 @@ Definition expand_fuel (tbl : names) : nat := S (List.length tbl).
 
 Definition expand_lexpr (tbl : names) (e : lexpr) : list diag :=
   flat_map (expand_atom tbl (expand_fuel tbl) []) (lexpr_atoms e).
+
+(* MacroRule.checkCycle (Check pass): the same depth-first walk over macro
+   references BY NAME, but the descent into a referenced macro happens only
+   while no error at all has been logged (!ctx.Errs.HasError()), so the walk
+   stops at the first re-entered macro: the first diagnostic [expand_atom]
+   would produce, computed directly. *)
+Fixpoint first_some {A B : Type} (f : A -> option B) (l : list A) : option B :=
+  match l with
+  | [] => None
+  | a :: r => match f a with Some b => Some b | None => first_some f r end
+  end.
+
+Fixpoint cyc_atom (tbl : names) (fuel : nat) (stk : list string) (a : lterm)
+  {struct fuel} : option diag :=
+  match a with
+  | LRef n =>
+      match lookup n tbl with
+      | Some (EMacro mid body) =>
+          if mem_str n stk then Some (KMacroCycle, Some mid)
+          else match fuel with
+               | 0 => Some (KMacroCycle, Some mid)
+               | S f => first_some (cyc_atom tbl f (n :: stk)) (lexpr_atoms body)
+               end
+      | _ => None
+      end
+  | _ => None
+  end.
+
+(* checkCycle of macro [n] = [e], called with nothing logged so far *)
+Definition macro_cycle_diag (tbl : names) (n : string) (e : lexpr) : list diag :=
+  match first_some (cyc_atom tbl (List.length tbl) [n]) (lexpr_atoms e) with
+  | Some d => [d]
+  | None => []
+  end.
+
+(* ------------------------------------------------------------------ *)
+(* Pass 2: Check.  Mode.RunPass only iterates its rules here, so the pass is
+   a plain left-to-right traversal of [all_decls].                       *)
+
+(* LexerTermLiteral / LexerTermRef / LexerTermCharClass .RunPass(Check).
+   CharClass.RunPass: one diagnostic per item with From > To, in item order
+   (for a difference: the items of the left class, then of the right). *)
+Definition ck_range (id : nat) (it : Z * Z) : list diag :=
+  if (snd it <? fst it)%Z then [(KBadRange, Some id)] else [].
+
+Definition ck_atom (st : nstate) (id : nat) (a : lterm) : list diag :=
+  match a with
+  | LLit [] => [(KEmptyLiteral, Some id)]
+  | LLit _ => []
+  | LRef n =>
+      match lookup n (n_names st) with
+      | None => [(KUndefined, Some id)]
+      | Some (EMacro _ _) => []
+      | Some _ => [(KNotAMacro, Some id)]
+      end
+  | LClass items => flat_map (ck_range id) items
+  | LGroup _ => []
+  end.
+
+Definition ck_lexpr (st : nstate) (id : nat) (e : lexpr) : list diag :=
+  flat_map (ck_atom st id) (lexpr_atoms e).
+
+(* action.go *)
+Definition ck_action (st : nstate) (id : nat) (a : laction) : list diag :=
+  match a with
+  | ADiscard | APop => []
+  | APush m => if mem_str m (n_modes st) then [] else [(KUndefinedMode, Some id)]
+  | AEmit t =>
+      match lookup t (n_names st) with
+      | None => [(KUndefined, Some id)]
+      | Some (EToken _) => []
+      | Some _ => [(KNotAToken, Some id)]
+      end
+  end.
+
+Definition pterm_simple (t : pterm) : bool :=
+  match t with PName _ | PAlias _ => true | _ => false end.
+
+(* parser_term.go preCheck, children, postCheck.  An EMPTY literal '' is
+   "literal cannot be empty".  An external name is "not a parser or token
+   rule". *)
+Fixpoint ck_pterm (st : nstate) (id : nat) (t : pterm) : list diag :=
+  match t with
+  | PName n =>
+      match lookup n (n_names st) with
+      | None => [(KUndefined, Some id)]
+      | Some (ERule _) | Some (EToken _) => []
+      | Some _ => [(KNotRuleOrToken, Some id)]
+      end
+  | PAlias lit =>
+      if String.eqb lit ""%string then [(KEmptyLiteral, Some id)]
+      else match count_str lit (n_aliases st) with
+           | 0 => [(KUnknownAlias, Some id)]
+           | 1 => []
+           | _ => [(KAmbiguousAlias, Some id)]
+           end
+  | PError => []
+  | PCard _ c => ck_pterm st id c
+  | PList e sp _ =>
+      ck_pterm st id e ++ ck_pterm st id sp ++
+      (if negb (pterm_simple e) then [(KListEntryNotSimple, Some id)]
+       else if negb (pterm_simple sp) then [(KListSepNotSimple, Some id)]
+       else [])
+  end.
+
+Definition nonempty {A : Type} (l : list A) : bool := match l with [] => false | _ => true end.
+
+(* [err]: has anything been logged so far (ctx.Errs.HasError(); CreateNames
+   logged nothing, else Check would not run).  Only MacroRule.checkCycle looks
+   at it: after the macro's own expression has been checked, the cycle walk
+   runs only if nothing at all has been logged -- so the whole run reports at
+   most one macro cycle, and none after any other diagnostic. *)
+Definition ck_decl (st : nstate) (err : bool) (d : decl) : list diag :=
+  match d with
+  | DToken id _ e acts | DFrag id e acts => ck_lexpr st id e ++ flat_map (ck_action st id) acts
+  | DMacro id n e =>
+      let d1 := ck_lexpr st id e in
+      d1 ++ (if err || nonempty d1 then [] else macro_cycle_diag (n_names st) n e)
+  | DExternal _ _ => []
+  | DMode _ _ _ => []                      (* body: see all_decls *)
+  | DRule id _ _ prods => flat_map (flat_map (ck_pterm st id)) prods
+  end.
+
+Fixpoint ck_decls (st : nstate) (err : bool) (ds : list decl) : list diag :=
+  match ds with
+  | [] => []
+  | d :: r => let dd := ck_decl st err d in dd ++ ck_decls st (err || nonempty dd) r
+  end.
+
+Definition pass_check (st : nstate) (s : spec) : list diag :=
+  ck_decls st false (all_decls s).
+
+(* ------------------------------------------------------------------ *)
+(* Pass 4: GenerateGrammar                                             *)
 
 (* TokenRule: the first @discard or @emit is reported and the rule is left. *)
 Fixpoint token_actions (id : nat) (acts : list laction) : list diag :=
@@ -609,24 +673,23 @@ Definition decl_refs_ok (st : nstate) (d : decl) : bool :=
 Definition wf_refs (s : spec) : bool := forallb (decl_refs_ok (canon s)) (all_decls s).
 
 (* Clause 4 : literal aliases defined and unambiguous: exactly one token is
-   that literal.  [strict = false] exempts the empty literal (what lox does). *)
-Fixpoint pterm_alias_ok (strict : bool) (st : nstate) (t : pterm) : bool :=
+   that literal.  (The empty literal is clause 9's business.) *)
+Fixpoint pterm_alias_ok (st : nstate) (t : pterm) : bool :=
   match t with
-  | PAlias lit =>
-      (negb strict && String.eqb lit ""%string) || (count_str lit (n_aliases st) =? 1)
+  | PAlias lit => String.eqb lit ""%string || (count_str lit (n_aliases st) =? 1)
   | PName _ | PError => true
-  | PCard _ c => pterm_alias_ok strict st c
-  | PList e sp _ => pterm_alias_ok strict st e && pterm_alias_ok strict st sp
+  | PCard _ c => pterm_alias_ok st c
+  | PList e sp _ => pterm_alias_ok st e && pterm_alias_ok st sp
   end.
 
-Definition decl_aliases_ok (strict : bool) (st : nstate) (d : decl) : bool :=
+Definition decl_aliases_ok (st : nstate) (d : decl) : bool :=
   match d with
-  | DRule _ _ _ prods => forallb (forallb (pterm_alias_ok strict st)) prods
+  | DRule _ _ _ prods => forallb (forallb (pterm_alias_ok st)) prods
   | _ => true
   end.
 
-Definition wf_aliases (strict : bool) (s : spec) : bool :=
-  forallb (decl_aliases_ok strict (canon s)) (all_decls s).
+Definition wf_aliases (s : spec) : bool :=
+  forallb (decl_aliases_ok (canon s)) (all_decls s).
 
 (* Clause 5 : @push_mode names a declared mode (or the default mode). *)
 Definition action_mode_ok (st : nstate) (a : laction) : bool :=
@@ -673,10 +736,18 @@ Definition decl_frag_actions_ok (d : decl) : bool :=
 
 Definition wf_frag_actions (s : spec) : bool := forallb decl_frag_actions_ok (all_decls s).
 
-(* Clause 9 : no empty literal in a lexer expression (an empty literal used
-   as a parser term is excluded by clause 4 strict). *)
+(* Clause 9 : no empty literal, neither in a lexer expression nor as a parser
+   term. *)
 Definition atom_lit_ok (a : lterm) : bool :=
   match a with LLit [] => false | _ => true end.
+
+Fixpoint pterm_lit_ok (t : pterm) : bool :=
+  match t with
+  | PAlias lit => negb (String.eqb lit ""%string)
+  | PName _ | PError => true
+  | PCard _ c => pterm_lit_ok c
+  | PList e sp _ => pterm_lit_ok e && pterm_lit_ok sp
+  end.
 
 Definition decl_expr (d : decl) : option lexpr :=
   match d with
@@ -687,8 +758,11 @@ Definition decl_expr (d : decl) : option lexpr :=
 Definition decl_atoms (d : decl) : list lterm :=
   match decl_expr d with Some e => lexpr_atoms e | None => [] end.
 
-Definition wf_literals (s : spec) : bool :=
-  forallb (fun d => forallb atom_lit_ok (decl_atoms d)) (all_decls s).
+Definition decl_literals_ok (d : decl) : bool :=
+  forallb atom_lit_ok (decl_atoms d) &&
+  match d with DRule _ _ _ prods => forallb (forallb pterm_lit_ok) prods | _ => true end.
+
+Definition wf_literals (s : spec) : bool := forallb decl_literals_ok (all_decls s).
 
 (* Clause 10 : every class item has lower bound <= upper bound. *)
 Definition atom_ranges_ok (a : lterm) : bool :=
@@ -702,8 +776,9 @@ Definition wf_ranges (s : spec) : bool :=
 
 (* Clause 11 : no macro cycle.  [acyclic_from tbl fuel stk a]: following the
    references of [a] never re-enters a macro of [stk] (and the fuel suffices).
-   Full version: from EVERY macro, used or not.  Weak version: from the token
-   and fragment rules only (what lox's expansion visits). *)
+   [wf_macros_acyclic]: from EVERY macro, used or not (the Check pass).
+   [wf_reachable_acyclic]: from the token and fragment rules only (what the
+   GenerateGrammar expansion visits); implied by the former, auxiliary. *)
 Definition acyclic_atoms (tbl : names) (fuel : nat) (stk : list string) (l : list lterm) : bool :=
   match flat_map (expand_atom tbl fuel stk) l with [] => true | _ => false end.
 
@@ -747,19 +822,14 @@ Definition wf_lists (s : spec) : bool := forallb decl_lists_ok (all_decls s).
 
 Definition well_formed (s : spec) : bool :=
   wf_unique s && wf_lexical_names s && wf_rule_names s && wf_refs s &&
-  wf_aliases true s && wf_modes s && wf_start s && wf_token_actions s &&
+  wf_aliases s && wf_modes s && wf_start s && wf_token_actions s &&
   wf_frag_actions s && wf_literals s && wf_ranges s && wf_macros_acyclic s &&
   wf_lists s.
 
-(* What lox enforces.  Compared with [well_formed]:
-   - wf_ranges dropped            ([z-a] is accepted);
-   - wf_macros_acyclic weakened to wf_reachable_acyclic (a cycle among macros
-     no token or fragment rule reaches is accepted);
-   - wf_aliases strict -> not strict (an empty literal '' used as a parser term
-     is accepted; lox then builds a production with a nil term);
-   - wf_rule_names dropped        (a rule named a__b is accepted). *)
+(* What lox enforces: everything but wf_rule_names (a rule named a__b is
+   accepted although parser_reference.md forbids consecutive underscores). *)
 Definition well_formed_weak (s : spec) : bool :=
   wf_unique s && wf_lexical_names s && wf_refs s &&
-  wf_aliases false s && wf_modes s && wf_start s && wf_token_actions s &&
-  wf_frag_actions s && wf_literals s && wf_reachable_acyclic s &&
+  wf_aliases s && wf_modes s && wf_start s && wf_token_actions s &&
+  wf_frag_actions s && wf_literals s && wf_ranges s && wf_macros_acyclic s &&
   wf_lists s.
